@@ -239,8 +239,10 @@ def step_level(rep, rng, tier):
     from . import meshes, runs
     stats = {"steps": 0, "retried_steps": 0, "refusals": 0}
     # the configured gamma / u of the layer are what the documented z, w use: gamma = 0 (plain TDGL) and an unusual u too
-    for gam_, u_ in ((10.0, 5.79), (0.0, 5.79), (3.0, 0.7)):
-        dev = meshes.make_device(rng, holes=0, terminals=0, max_edge_length=1.0, probe_points=False, gamma=gam_, u=u_)
+    # two of the three devices carry a transport current, so that mu != 0 and the temporal link exp(-i mu dt) matters: it has to
+    # be the one for the dt the step finally used, also after refusals within the step
+    for gam_, u_, nterm in ((10.0, 5.79, 2), (0.0, 5.79, 0), (3.0, 0.7, 2)):
+        dev = meshes.make_device(rng, holes=0, terminals=nterm, max_edge_length=1.0, probe_points=False, gamma=gam_, u=u_)
 
         def eps(r):
             return -1.0 if r[0] < 0 else 1.0
@@ -259,6 +261,10 @@ def step_level(rep, rng, tier):
                 p = np.asarray(res.psi)
                 resid = np.abs(p + z * np.abs(p) ** 2 - w)
                 scale = np.abs(w) + np.abs(z) * np.abs(p) ** 2 + 1e-300
+                fx = np.asarray(solver.operators.fixed_sites, dtype=int) if getattr(solver.operators, "fixed_sites", None) is not None else []
+                if len(fx):
+                    resid[fx] = 0.0            # pinned terminal sites are decided by C06
+                stats["max_abs_mu"] = max(stats.get("max_abs_mu", 0.0), float(np.max(np.abs(mu))))
                 stats["steps"] += 1
                 nref = len(refused)
                 refused.clear()
@@ -273,7 +279,8 @@ def step_level(rep, rng, tier):
                 opts = runs.make_options(td, solve_time=3 * dt0, dt_init=dt0, dt_max=dt0 * (1 + 1e-9), adaptive=True,
                                          save_every=100)
                 from tdgl.solver.solver import TDGLSolver
-                solver = TDGLSolver(dev, opts, disorder_epsilon=eps)
+                solver = TDGLSolver(dev, opts, disorder_epsilon=eps,
+                                    terminal_currents={"source": 3.0, "drain": -3.0} if nterm else None)
                 orig_static = TDGLSolver.solve_for_psi_squared
 
                 def counting(**kw):
@@ -295,6 +302,8 @@ def step_level(rep, rng, tier):
     rep.count(stats["steps"])
     rep.nontrivial(("step-level", stats["retried_steps"] > 0))
     rep.coverage["step_level"] = stats
+    if stats.get("max_abs_mu", 0.0) < 1e-3:
+        rep.not_shown("step-level stream did not exercise a non-zero potential (generator too weak)", stats)
     if stats["retried_steps"] == 0:
         rep.not_shown("step-level stream did not exercise a retry (generator too weak)", stats)
 
